@@ -96,8 +96,10 @@ def get_facts(config='default', repo=REPO, quiet=True):
         os.rename(out + '.new', out)
         # keep the cache small: drop fact files other than the 30 newest
         fs = sorted(glob.glob(os.path.join(CACHE, 'facts', '*.json')), key=os.path.getmtime)
-        for f in fs[:-30]:
+        for f in fs[:-60]:
             try:
+                if time.time() - os.path.getmtime(f) < 3600:
+                    continue      # may be in use by a concurrent run
                 os.remove(f)
             except OSError:
                 pass
